@@ -66,8 +66,14 @@ func c06Shapes(thorough bool) []c06shape {
 	}
 	mapOf := func(elemT *Type, items []*Node) *Node {
 		var kv []*Node
+		// keys that need care when they become path parts: "/", "~", ".", blank, escape-like text
+		names := []string{"k0", "k/1", "k~2", "k.3", "~14", "k 5", "k6", "k7"}
 		for i, it := range items {
-			kv = append(kv, str("k"+strconv.Itoa(i)), it)
+			name := "k" + strconv.Itoa(i)
+			if i < len(names) {
+				name = names[i]
+			}
+			kv = append(kv, str(name), it)
 		}
 		return NMap(TStr, elemT, kv...)
 	}
